@@ -6,6 +6,7 @@
 package main
 
 import (
+	"bytes"
 	"fmt"
 	"os"
 	"runtime/pprof"
@@ -14,9 +15,16 @@ import (
 	"strings"
 
 	"github.com/elastos/Elastos.ELA/common"
+	"github.com/elastos/Elastos.ELA/common/config"
+	"github.com/elastos/Elastos.ELA/core"
+	"github.com/elastos/Elastos.ELA/core/contract"
+	pg "github.com/elastos/Elastos.ELA/core/contract/program"
 	"github.com/elastos/Elastos.ELA/core/types"
 	common2 "github.com/elastos/Elastos.ELA/core/types/common"
+	"github.com/elastos/Elastos.ELA/core/types/functions"
 	"github.com/elastos/Elastos.ELA/core/types/interfaces"
+	"github.com/elastos/Elastos.ELA/core/types/outputpayload"
+	"github.com/elastos/Elastos.ELA/core/types/payload"
 	"verif/harness/internal/rep"
 	"verif/harness/internal/stack"
 )
@@ -34,6 +42,7 @@ type world struct {
 	idOf    map[common.Uint256]int
 	base    uint32 // height of the prefix tip
 	tracked []string
+	fundChange common2.OutPoint
 }
 
 func opKey(tx string, idx int) string { return fmt.Sprintf("%s:%d", tx, idx) }
@@ -42,7 +51,15 @@ func opKey(tx string, idx int) string { return fmt.Sprintf("%s:%d", tx, idx) }
 var txIns = map[string][]string{
 	"T1": {"F1:0"}, "T2": {"F1:0"}, "T3": {"T1:0"}, "T4": {"F2:0", "F2:0"}, "T5": {"X:0"},
 	"T6": {"F2:0"}, "T7": {"T1:1", "F2:0"},
+	"R1": {"G1:0"}, "R2": {"G2:0"}, "R3": {"G3:0"}, "R4": {"G4:0"},
 }
+
+// producer registrations (Ledger.tla Res): owner key, node key, nickname
+var regOf = map[string][3]string{
+	"R1": {"o1", "n1", "alpha"}, "R2": {"o1", "n2", "betaa"}, "R3": {"o2", "n1", "gamma"}, "R4": {"o2", "n2", "alpha"},
+}
+var regOrder = []string{"R1", "R2", "R3", "R4"}
+var withProducers bool
 
 type outT struct {
 	addr string
@@ -57,15 +74,28 @@ var txOrder = []string{"T1", "T2", "T3", "T4", "T5", "T6", "T7"}
 var owner = map[string]string{"F1:0": "K", "F2:0": "K", "X:0": "K"}
 
 func newWorld(opt stack.Options) (*world, error) {
+	keys := map[string]*stack.Key{}
+	for i, k := range []string{"K", "A", "B", "o1", "o2", "n1", "n2"} {
+		keys[k] = stack.KeyFromSeed(uint64(100 + i))
+	}
+	if withProducers {
+		// the genesis coinbase (33 M ELA) goes to K: funds for producer deposits; the DPoS
+		// state processes registrations from the first block on
+		opt.Foundation = &keys["K"].Hash
+		prev := opt.Tweak
+		opt.Tweak = func(p *config.Configuration) {
+			if prev != nil {
+				prev(p)
+			}
+			p.VoteStartHeight = 1
+		}
+	}
 	n, err := stack.New(opt)
 	if err != nil {
 		return nil, err
 	}
-	w := &world{n: n, keys: map[string]*stack.Key{}, ops: map[string]common2.OutPoint{}, vals: map[string]common.Fixed64{},
+	w := &world{n: n, keys: keys, ops: map[string]common2.OutPoint{}, vals: map[string]common.Fixed64{},
 		txs: map[string]interfaces.Transaction{}, blocks: map[int]*types.Block{}, idOf: map[common.Uint256]int{}}
-	for i, k := range []string{"K", "A", "B"} {
-		w.keys[k] = stack.KeyFromSeed(uint64(100 + i))
-	}
 	// prefix: three blocks whose miner share goes to K (funding outputs F1, F2)
 	parent := n.Genesis()
 	for i := 0; i < 3; i++ {
@@ -78,6 +108,33 @@ func newWorld(opt stack.Options) (*world, error) {
 		}
 		w.prefix = append(w.prefix, b)
 		parent = b
+	}
+	if withProducers {
+		gcb := n.Genesis().Transactions[0]
+		const g = common.Fixed64(6000 * 100000000)
+		var outs []stack.Out
+		for i := 0; i < 4; i++ {
+			outs = append(outs, stack.Out{To: w.keys["K"].Hash, Value: g})
+			w.vals[fmt.Sprintf("G%d:0", i+1)] = g
+			owner[fmt.Sprintf("G%d:0", i+1)] = "K"
+		}
+		outs = append(outs, stack.Out{To: w.keys["B"].Hash, Value: gcb.Outputs()[0].Value - 4*g - fee})
+		fund, err := stack.Transfer([]common2.OutPoint{{TxID: gcb.Hash(), Index: 0}}, outs, []*stack.Key{w.keys["K"]}, 77)
+		if err != nil {
+			return nil, err
+		}
+		fb, err := n.NewBlock(parent, []interfaces.Transaction{fund}, stack.BlockOpts{Fees: fee})
+		if err == nil {
+			_, _, err = n.Process(fb)
+		}
+		if err != nil {
+			return nil, fmt.Errorf("funding block: %v", err)
+		}
+		parent = fb
+		for i := 0; i < 4; i++ {
+			w.ops[fmt.Sprintf("G%d:0", i+1)] = common2.OutPoint{TxID: fund.Hash(), Index: uint16(i)}
+		}
+		w.fundChange = common2.OutPoint{TxID: fund.Hash(), Index: 4}
 	}
 	w.base = parent.Height
 	w.blocks[0] = parent
@@ -128,6 +185,20 @@ func newWorld(opt stack.Options) (*world, error) {
 		w.txs[t] = tx
 		for i := range outs {
 			w.ops[opKey(t, i)] = common2.OutPoint{TxID: tx.Hash(), Index: uint16(i)}
+		}
+	}
+	if withProducers {
+		for _, t := range regOrder {
+			tx, err := w.registerTx(t)
+			if err != nil {
+				return nil, err
+			}
+			w.txs[t] = tx
+			for i := 0; i < 2; i++ {
+				w.ops[opKey(t, i)] = common2.OutPoint{TxID: tx.Hash(), Index: uint16(i)}
+				w.vals[opKey(t, i)] = tx.Outputs()[i].Value
+			}
+			owner[opKey(t, 0)], owner[opKey(t, 1)] = "D", "K"
 		}
 	}
 	for k := range w.ops {
@@ -265,7 +336,7 @@ func (w *world) project() proj {
 			p.Notes = append(p.Notes, fmt.Sprintf("balance of %s %d != sum of its UTXO list %d", a, amt, sum))
 		}
 	}
-	for _, t := range txOrder {
+	for _, t := range w.allTx() {
 		tx, hgt, err := n.Store.GetTransaction(w.txs[t].Hash())
 		if err != nil || tx == nil {
 			p.TxH[t] = 0
@@ -335,6 +406,43 @@ func compare(st rep.Step, p proj, txset map[string]bool) (string, string) {
 		return "query-consistency", strings.Join(p.Notes, "; ")
 	}
 	return "", ""
+}
+
+func (w *world) allTx() []string {
+	if withProducers {
+		return append(append([]string{}, txOrder...), regOrder...)
+	}
+	return txOrder
+}
+
+// registerTx builds a signed RegisterProducer transaction (deposit 5000 ELA + change)
+func (w *world) registerTx(t string) (interfaces.Transaction, error) {
+	r := regOf[t]
+	ownerK, nodeK := w.keys[r[0]], w.keys[r[1]]
+	opk, _ := ownerK.Acc.PublicKey.EncodePoint(true)
+	npk, _ := nodeK.Acc.PublicKey.EncodePoint(true)
+	dep, err := contract.CreateDepositContractByPubKey(ownerK.Acc.PublicKey)
+	if err != nil {
+		return nil, err
+	}
+	info := &payload.ProducerInfo{OwnerKey: opk, NodePublicKey: npk, NickName: r[2], Url: "http://x", Location: 1, NetAddress: "127.0.0.1:1"}
+	buf := new(bytes.Buffer)
+	info.SerializeUnsigned(buf, payload.ProducerInfoVersion)
+	sig, err := ownerK.Acc.Sign(buf.Bytes())
+	if err != nil {
+		return nil, err
+	}
+	info.Signature = sig
+	in := txIns[t][0]
+	const deposit = common.Fixed64(5000 * 100000000)
+	attr := common2.NewAttribute(common2.Nonce, []byte("reg-"+t))
+	tx := functions.CreateTransaction(common2.TxVersion09, common2.RegisterProducer, payload.ProducerInfoVersion, info,
+		[]*common2.Attribute{&attr}, []*common2.Input{{Previous: w.ops[in]}},
+		[]*common2.Output{
+			{AssetID: core.ELAAssetID, Value: deposit, ProgramHash: *dep.ToProgramHash(), Type: common2.OTNone, Payload: &outputpayload.DefaultOutput{}},
+			{AssetID: core.ELAAssetID, Value: w.vals[in] - deposit - fee, ProgramHash: w.keys["K"].Hash, Type: common2.OTNone, Payload: &outputpayload.DefaultOutput{}},
+		}, 0, []*pg.Program{})
+	return tx, stack.Sign(tx, []*stack.Key{w.keys["K"]})
 }
 
 func isExtension(old, new []int) bool {
@@ -526,6 +634,21 @@ func main() {
 	}
 	if cacheMode {
 		opt = cacheOptions()
+	}
+	for _, b := range behs {
+		for _, st := range b {
+			if st.Act() == "Submit" && strings.HasPrefix(rep.Str(st.Args(), "tx"), "R") {
+				withProducers = true
+			}
+			for _, t := range rep.List(st.Args(), "txs") {
+				if strings.HasPrefix(t.(string), "R") {
+					withProducers = true
+				}
+			}
+			if _, has := rep.Map(st, "txh")["R1"]; has {
+				withProducers = true
+			}
+		}
 	}
 	okN, cases, steps := 0, 0, 0
 	var sample interface{}
